@@ -412,6 +412,29 @@ def run(sh):
                 'tie_seed': i, 'mass': nw}
         run_case(sh, case)
         sh.count('mass_waiter_cases')
+    # history length: one manager that has registered well over ten thousand requests in its life (most served at
+    # once on a free pool); two requests registered far apart then become feasible at the same check
+    for i in sh.share(1 if sh.tier == 'quick' else 8):
+        rng = random.Random(core.stable_int(sh.seed, 'C10hist', i))
+        script = [[0.0, 9, ['reserve', [['r0', 1]]]]]                       # r0 is taken
+        t = 0.25
+        first = rng.choice([2500, 3100, 4999])
+        for k in range(first):
+            script.append([t, 5, ['register', [['r1', 1]], 'none']])
+            if k % 100 == 99:
+                t += 1.0
+        script.append([t, 5, ['register', [['r0', 1]], 'reserve']])          # the old request for r0
+        t += 1.0
+        for k in range(rng.choice([7100, 7600, 9000])):
+            script.append([t, 5, ['register', [['r1', 1]], 'none']])
+            if k % 100 == 99:
+                t += 1.0
+        script.append([t, 5, ['register', [['r0', 1]], 'reserve']])          # the young request for r0
+        script.append([t + 1.0, 5, ['add', 'r0', 2]])                        # both fit now
+        case = {'engine': 'waiters', 'resources': {'r0': 1, 'r1': 300}, 'script': script, 'horizon': t + 3.0,
+                'tie': pol[i % 4], 'tie_seed': i, 'history': len(script)}
+        run_case(sh, case)
+        sh.count('long_history_cases')
 
 
 def replay(sh, v):
